@@ -20,7 +20,7 @@ META = {
               'disabled / enabled; encryption off / on; packet ids known / '
               'unknown to the reader; read-loop unwinding bound = frame '
               'length (unwinding assertion); W=64',
-    'outside': 'payloads of several KiB (3-byte length prefix at 16384); '
+    'outside': 'segmented reads of payloads beyond 130 bytes (the 2->3-byte length prefix at 16384 is covered with unsegmented reads in the thorough tier); '
                'zlib and AES themselves (uninterpreted)',
     'assumptions': [
         'E-zlib: compress is an uninterpreted injective function with '
@@ -62,7 +62,7 @@ def _classes():
 
 
 def framing(ctx, lengths, compressed=False, encrypted=False, sentinel=False,
-            max_reads=400):
+            max_reads=400, whole=False):
     import minecraft.networking.connection as cn
     import minecraft.networking.packets.packet as pk
     import minecraft.networking.encryption as enc
@@ -122,7 +122,8 @@ def framing(ctx, lengths, compressed=False, encrypted=False, sentinel=False,
         reactor = cn.PacketReactor(conn)
         reactor.clientbound_packets = {0x05: Known}
         stream = netenv.Stream(bytes(wire_items) if ctx.mode == 'conc'
-                               else wire_items, max_reads=max_reads)
+                               else wire_items, max_reads=max_reads,
+                               whole=whole)
         rd = stream
         if encrypted:
             rd = enc.EncryptedFileObjectWrapper(stream, decryptor)
@@ -222,6 +223,16 @@ def instances(tier, seed):
                     budget_s=3000 if sum(lengths) > 60 else 900,
                     witness_every=1 if sum(lengths) < 20 else 7,
                     max_decisions=100000))
+    if tier == 'thorough':
+        # the 2->3-byte length-prefix boundary (16383/16384-byte bodies),
+        # symbolic content and threshold, reads unsegmented
+        for n in (16381, 16382, 16383):
+            for comp in (False, True):
+                out.append(Instance(
+                    'framing:%d:%s:whole' % (n, 'z' if comp else 'p'),
+                    'framing', {'lengths': [n], 'compressed': comp,
+                                'whole': True}, W=64, budget_s=3000,
+                    max_decisions=400000, witness_every=1))
     out.append(Instance('sentinel:framing', 'framing',
                         {'lengths': [3], 'compressed': True,
                          'sentinel': True}, W=64, expect='violation',
